@@ -25,6 +25,22 @@ var flatTokens = func() []string {
 		}
 		t = append(t, "k:"+k.Name, "kv:"+k.Name)
 	}
+	// ... and the same structs typed with a name of another family (a plain Object that says it is a Person or a Like, an
+	// intransitive activity that says Create): what counts is that it is an embedded non-collection object with an id
+	for _, k := range vmodel.Kinds {
+		if k.Fam == "collection" || k.Fam == "link" {
+			continue
+		}
+		for _, other := range []string{"Note", "Person", "Like", "Arrive", "Question"} {
+			own := false
+			for _, tn := range k.Types {
+				own = own || tn == other
+			}
+			if !own {
+				t = append(t, "kx:"+k.Name+":"+other)
+			}
+		}
+	}
 	for i := range oddIDs {
 		t = append(t, fmt.Sprintf("oddid:%d", i))
 	}
@@ -46,6 +62,15 @@ func flatItem(tok string, n int) vocab.Item {
 		return vocab.Actor{ID: oid, Type: vocab.PersonType}
 	}
 	id := vocab.IRI(fmt.Sprintf("https://example.com/flat/%s/%d", tok, n))
+	if strings.HasPrefix(tok, "kx:") {
+		parts := strings.Split(tok, ":")
+		k := vmodel.Kinds[vmodel.KindIndex(parts[1])]
+		p := reflect.ValueOf(k.New())
+		p.Elem().FieldByName("ID").Set(reflect.ValueOf(vocab.IRI(fmt.Sprintf("https://example.com/flat/%s-as-%s/%d", k.Name, parts[2], n))))
+		p.Elem().FieldByName("Type").Set(reflect.ValueOf(vocab.ActivityVocabularyType(parts[2])))
+		p.Elem().FieldByName("Summary").Set(reflect.ValueOf(vocab.NaturalLanguageValues{{Ref: vocab.NilLangRef, Value: vocab.Content("embedded " + k.Name + " typed " + parts[2])}}))
+		return p.Interface().(vocab.Item)
+	}
 	if strings.HasPrefix(tok, "k:") || strings.HasPrefix(tok, "kv:") {
 		k := vmodel.Kinds[vmodel.KindIndex(tok[strings.IndexByte(tok, ':')+1:])]
 		p := reflect.ValueOf(k.New())
@@ -471,7 +496,7 @@ var flatTargets = func() []flatTarget {
 }()
 
 // list arrangements: all sequences of length <= 4 over these tokens
-var flatListTokens = []string{"objA", "iriA", "objB", "noid", "noid2", "nil", "link", "iriC", "link-hashtag", "link-untyped", "public-compact"}
+var flatListTokens = []string{"objA", "iriA", "objB", "noid", "noid2", "nil", "link", "iriC", "link-hashtag", "link-untyped", "public-compact", "obj-typed-person"}
 
 // wider token set for the random layer: every object kind as a list member too
 var flatListTokensWide = func() []string {
@@ -485,11 +510,16 @@ var flatListTokensWide = func() []string {
 	for i := range oddIDs {
 		t = append(t, fmt.Sprintf("oddid:%d", i))
 	}
+	for _, tok := range flatTokens {
+		if strings.HasPrefix(tok, "kx:") {
+			t = append(t, tok)
+		}
+	}
 	return t
 }()
 
 func flatListItem(tok string) vocab.Item {
-	if strings.HasPrefix(tok, "k:") || strings.HasPrefix(tok, "oddid:") {
+	if strings.HasPrefix(tok, "k:") || strings.HasPrefix(tok, "kx:") || strings.HasPrefix(tok, "oddid:") {
 		return flatItem(tok, 7)
 	}
 	switch tok {
@@ -516,6 +546,8 @@ func flatListItem(tok string) vocab.Item {
 		return &vocab.Link{Href: "https://example.com/flat/untyped-href"}
 	case "public-compact":
 		return vocab.IRI("as:Public") // the public collection under its compact name: a plain IRI like any other
+	case "obj-typed-person":
+		return &vocab.Object{ID: "https://example.com/flat/P", Type: vocab.PersonType} // an addressee held in a plain Object
 	}
 	panic(tok)
 }
